@@ -83,9 +83,47 @@ def find_depending_unit(res):
     LL = z3.Int("later_len")
     rd = z3.Function("rd", I, I, B)  # is_read(d, instr)     (contract of is_read: H.reads)
     wr = z3.Function("wr", I, I, B)  # is_written(d, instr)  (contract of is_written: H.writes)
-    ml = z3.Function("ml", I, I, B)  # is_memload(d, instr, changes at that point)   (C06)
-    ms = z3.Function("ms", I, I, B)  # is_memstore(d, instr, ...)                    (C06)
-    ex.abstract["_update_reg_changes"] = lambda ex_, so, a, kw: Opaque("register_changes")
+    # ghost state of the register-change table (C06): an abstract value that only _update_reg_changes transforms.
+    #   upd(table, instruction, post-index pass?)   (contract of _update_reg_changes: proved in C06/_update_reg_changes)
+    # specification: the table handed to is_memload / is_memstore for the j-th later instruction is
+    #   PRE(j) = upd(DONE(j), later[j], False),  DONE(0) = upd(upd(empty, producer, False), producer, True),
+    #   DONE(j+1) = upd(PRE(j), later[j], True)   -- started afresh for every destination
+    RC = z3.DeclareSort("RegChanges")
+    upd = z3.Function("upd", RC, I, B, RC)
+    rc_empty = z3.Const("rc_empty", RC)
+    DONE = z3.Function("rc_done", I, RC)
+    rc_init = upd(upd(rc_empty, INS, z3.BoolVal(False)), INS, z3.BoolVal(True))
+    PRE = lambda k: upd(DONE(k), later[k], z3.BoolVal(False))
+    ml = z3.Function("ml", I, I, RC, B)  # is_memload(d, instr, changes at that point)   (C06)
+    ms = z3.Function("ms", I, I, RC, B)  # is_memstore(d, instr, ...)                    (C06)
+
+    class RCObj:
+        havoc_when_passed = True
+
+        def __init__(self, term):
+            self.term = term
+
+        def sym_havoc(self, ex_, tag):
+            self.term = z3.FreshConst(RC, tag)
+            return self
+
+    def update_changes(ex_, so, a, kw):
+        iform = a[0]
+        table = a[1] if len(a) > 1 else kw.get("reg_state")
+        post = a[2] if len(a) > 2 else kw.get("only_postindexed", False)
+        pt = post.t if isinstance(post, SBool) else z3.BoolVal(bool(post))
+        if table is None:
+            table = RCObj(rc_empty)
+        if not isinstance(table, RCObj):
+            raise Unsupported("register-change table of unexpected kind")
+        table.term = upd(table.term, iform.t, pt)
+        return table
+
+    ex.abstract["_update_reg_changes"] = update_changes
+
+    def rc_of(a, kw):
+        t = a[2] if len(a) > 2 else kw.get("register_changes")
+        return t.term if isinstance(t, RCObj) else rc_empty
     def rel(f):
         def g(ex_, so, a, kw):
             if a[0] is None:
@@ -95,21 +133,21 @@ def find_depending_unit(res):
 
     ex.abstract["is_read"] = rel(rd)
     ex.abstract["is_written"] = rel(wr)
-    ex.abstract["is_memload"] = lambda ex_, so, a, kw: SBool(ml(a[0].t, a[1].t))
-    ex.abstract["is_memstore"] = lambda ex_, so, a, kw: SBool(ms(a[0].t, a[1].t))
+    ex.abstract["is_memload"] = lambda ex_, so, a, kw: SBool(ml(a[0].t, a[1].t, rc_of(a, kw)))
+    ex.abstract["is_memstore"] = lambda ex_, so, a, kw: SBool(ms(a[0].t, a[1].t, rc_of(a, kw)))
     indexed = lambda d: z3.Or(o.pre(d), o.post_t(d))
     base = o.basef
 
     # reference (statement): consumer j depends on destination d iff it reads d (register; flag only when flag
     # dependencies are requested; memory: a load of the location).  The scan ends at the first instruction that
     # overwrites d (register/flag), resp. the write-back base or the same location (memory).
-    def readcond(d, jx):
+    def readcond(d, jx, k):
         return z3.Or(z3.And(H.isreg(d), rd(d, jx)), z3.And(H.isflag(d), FD, rd(d, jx)),
-                     z3.And(H.ismem(d), z3.Not(z3.And(indexed(d), wr(base(d), jx))), ml(d, jx)))
+                     z3.And(H.ismem(d), z3.Not(z3.And(indexed(d), wr(base(d), jx))), ml(d, jx, PRE(k))))
 
-    def killcond(d, jx):
+    def killcond(d, jx, k):
         return z3.Or(z3.And(H.isreg(d), wr(d, jx)), z3.And(H.isflag(d), FD, wr(d, jx)),
-                     z3.And(H.ismem(d), z3.Or(z3.And(indexed(d), wr(base(d), jx)), ms(d, jx))))
+                     z3.And(H.ismem(d), z3.Or(z3.And(indexed(d), wr(base(d), jx)), ms(d, jx, PRE(k)))))
 
     def tagspec(d):
         return z3.And(H.isreg(d), indexed(d))
@@ -117,9 +155,9 @@ def find_depending_unit(res):
     state = {}
 
     def on_yield(ex_, v, env):
-        d, jx = env["dst"].t, env["instr_form"].t
+        d, jx, k = env["dst"].t, env["instr_form"].t, env["__k__1"]
         inst, tag = v
-        ex_.oblige("yield/sound", z3.And(inst.t == jx, readcond(d, jx)))
+        ex_.oblige("yield/sound", z3.And(inst.t == jx, readcond(d, jx, k)))
         if tag == ["p_indexed"]:
             ex_.oblige("yield/tag", tagspec(d))
         elif tag == []:
@@ -136,15 +174,19 @@ def find_depending_unit(res):
         def havoc(self, ex_, env):
             state["yields"] = 0
 
+        def on_body_start(self, ex_, env, k):
+            # instance of the recursive definition of DONE at this position
+            ex_.assume(DONE(k + 1) == upd(PRE(k), later[k], z3.BoolVal(True)))
+
         def on_body_end(self, ex_, env, k):
             d, jx = env["dst"].t, env["instr_form"].t
             ny = state.get("yields", 0)
-            ex_.oblige("complete/no-break", z3.And(z3.Not(killcond(d, jx)), z3.BoolVal(ny == 1) == readcond(d, jx)) if ny <= 1 else False)
+            ex_.oblige("complete/no-break", z3.And(z3.Not(killcond(d, jx, k)), z3.BoolVal(ny == 1) == readcond(d, jx, k)) if ny <= 1 else False)
 
         def on_break(self, ex_, env, k):
             d, jx = env["dst"].t, env["instr_form"].t
             ny = state.get("yields", 0)
-            ex_.oblige("complete/break", z3.And(killcond(d, jx), z3.BoolVal(ny == 1) == readcond(d, jx)) if ny <= 1 else False)
+            ex_.oblige("complete/break", z3.And(killcond(d, jx, k), z3.BoolVal(ny == 1) == readcond(d, jx, k)) if ny <= 1 else False)
             raise_pathend()
 
     def raise_pathend():
@@ -153,7 +195,12 @@ def find_depending_unit(res):
 
     ex.loop_hooks[("find_depending", 1)] = InnerHook()
     ex.invariants[("find_depending", 0)] = lambda ex_, env, k: z3.BoolVal(True)
-    ex.invariants[("find_depending", 1)] = lambda ex_, env, k: z3.BoolVal(True)
+    # inner loop invariant: the table in hand is the specified one for this position
+    def inner_inv(ex_, env, k):
+        t = env.get("register_changes")
+        return t.term == DONE(k) if isinstance(t, RCObj) else z3.BoolVal(False)
+
+    ex.invariants[("find_depending", 1)] = inner_inv
 
     def run():
         state["yields"] = 0
@@ -162,7 +209,7 @@ def find_depending_unit(res):
         ex.call_method("KernelDG", "find_depending", selfo, [SRef(INS, H.ins), L, SBool(FD)])
         return None
 
-    paths = ex.explore(run, H.wf() + [LL >= 0])
+    paths = ex.explore(run, H.wf() + [LL >= 0, DONE(0) == rc_init])
     exc = [p for p in paths if p.outcome[0] == "exc"]
     n = res.add_paths(paths, None, kind="post")
     res.note(f"{len(paths)} paths, {len(exc)} raising; obligations at every yield (soundness, tag), body end and break (completeness, break <=> kill)")
